@@ -88,7 +88,7 @@ theorem overLoop_tri {upper : Text → Text} : ∀ (n : Nat) (ks : List Node) (p
           | error e => simp [hg] at h
           | ok ks1 =>
             simp only [hg] at h
-            exact (groupTokens_tri_plain hg rfl (by decide) (Nat.le_of_lt (tokenNext_spec hnx).1)).trans (ih _ _ _ h)
+            exact (groupTokens_tri_plain hg rfl (by decide) (Nat.le_of_lt (tokenNext_hit hnx).1)).trans (ih _ _ _ h)
         · exact ih _ _ _ h
 
 /-! ### group_aliased -/
@@ -119,7 +119,7 @@ theorem aliasedLoop_tri {upper : Text → Text} : ∀ (n : Nat) (ks : List Node)
           | error e => simp [hg] at h
           | ok ks1 =>
             simp only [hg] at h
-            exact (groupTokens_tri_plain hg rfl (by decide) (Nat.le_of_lt (tokenNext_spec hnx).1)).trans (ih _ _ _ h)
+            exact (groupTokens_tri_plain hg rfl (by decide) (Nat.le_of_lt (tokenNext_hit hnx).1)).trans (ih _ _ _ h)
         · exact ih _ _ _ h
 
 /-! ### group_functions -/
@@ -145,7 +145,7 @@ theorem functionsLoop_tri {upper : Text → Text} : ∀ (n : Nat) (ks : List Nod
         obtain ⟨nidx, next⟩ := q
         simp only [hnx] at h
         split at h
-        · have hlt := (tokenNext_spec hnx).1
+        · have hlt := (tokenNext_hit hnx).1
           have fin : ∀ eidx, tidx ≤ eidx →
               (match groupTokens ks Gen.group_functions_group_tokens0_cls tidx eidx true
                   Gen.group_functions_group_tokens0_extend with
@@ -166,7 +166,7 @@ theorem functionsLoop_tri {upper : Text → Text} : ∀ (n : Nat) (ks : List Nod
             exact fin nidx (Nat.le_of_lt hlt) h
           | some q2 =>
             obtain ⟨oidx, over⟩ := q2
-            have := (tokenNext_spec hov).1
+            have := (tokenNext_hit hov).1
             simp only [hov] at h
             by_cases hover : over.isInstAny Gen.group_functions_isinstance1 = true
             · rw [if_pos hover] at h; exact fin oidx (by omega) h
@@ -208,7 +208,7 @@ theorem orderLoop_tri {upper : Text → Text} : ∀ (n : Nat) (ks : List Node) (
           | error e => simp [hg] at h
           | ok ks1 =>
             simp only [hg] at h
-            exact (groupTokens_tri_plain hg rfl (by decide) (Nat.le_of_lt (tokenPrev_spec hpv).1)).trans (ih _ _ _ h)
+            exact (groupTokens_tri_plain hg rfl (by decide) (Nat.le_of_lt (tokenPrev_hit hpv).1)).trans (ih _ _ _ h)
         · exact ih _ _ _ h
 
 /-! ### facts about what `token_next_by` found -/
@@ -278,7 +278,7 @@ theorem commentsLoop_tri {upper : Text → Text} : ∀ (n : Nat) (ks : List Node
           | error e => simp [hg] at h
           | ok ks1 =>
             simp only [hg] at h
-            obtain ⟨h1, h2, h3, _⟩ := tokenMatchingFwd_spec hm
+            obtain ⟨h1, h2, h3, _⟩ := tokenMatchingFwd_hit hm
             have hne : eidx ≠ tidx := by
               intro heq
               subst heq
@@ -409,7 +409,7 @@ theorem alignLoop_tri {upper : Text → Text} : ∀ (n : Nat) (ks : List Node) (
       | some q =>
         obtain ⟨pidx, prev⟩ := q
         simp only [hpv] at h
-        obtain ⟨hlt, hprev⟩ := tokenPrev_spec hpv
+        obtain ⟨hlt, hprev⟩ := tokenPrev_hit hpv
         by_cases hinst : prev.isInstAny Gen.align_comments_isinstance0 = true
         · rw [if_pos hinst] at h
           cases hg : groupTokens ks Gen.align_comments_group_tokens0_cls pidx tidx true
@@ -452,7 +452,7 @@ theorem valuesLoop_ge {s : Nat} : ∀ (n : Nat) (ks : List Node) (pend : Option 
       have hs := hp tidx tok rfl
       refine ih _ _ _ _ h ?_ ?_
       · intro t k hq
-        have := (tokenNext_spec hq).1
+        have := (tokenNext_hit hq).1
         omega
       · intro x hx
         split at hx
